@@ -213,27 +213,31 @@ theorem C16_replica_all_histories (s : St) (ops : List Op) (n : Nat) (hobs : ∀
     exact ih (step s op).1 (fun v hv => hobs v (by simp [hv]))
 
 /-- **A subscribed listener receives exactly these signals**: a live handler that is subscribed exactly once
-    to every signal type of `n` is called, in emission order, with exactly the signals emitted for `n` — so
-    by `C16_signals_track_list` its copy stays identical to the real list. -/
+    to the type of every signal the operation emits for `n` (e.g. subscribed once with `All()` for the type: the
+    hypothesis speaks of the types that occur, not of all five — a plain Observable has `change` only) is called, in
+    emission order, with exactly the signals emitted for `n` — so by `C16_signals_track_list` its copy stays identical
+    to the real list; `C16_listener_replica_all_histories` composes the two over a history. -/
 theorem C16_listener_receives_all (s : St) (op : Op) (n h : Nat)
-    (hsub : ∀ t, ((s.reg.subs n t).filter s.alive).count h = 1) (ds : List (Nat × Sig))
-    (ho : (step s op).2 = .ok ds) :
+    (hsub : ∀ sig ∈ emitted s op, sig.name = n → ((s.reg.subs n sig.type).filter s.alive).count h = 1)
+    (ds : List (Nat × Sig)) (ho : (step s op).2 = .ok ds) :
     (ds.filter fun d => d.1 == h && d.2.name == n).map (·.2) = (emitted s op).filter fun sig => sig.name == n := by
   have key : ∀ sigs : List Sig,
+      (∀ sig ∈ sigs, sig.name = n → ((s.reg.subs n sig.type).filter s.alive).count h = 1) →
       ((sigs.flatMap (liveDeliveries s)).filter fun d => d.1 == h && d.2.name == n).map (·.2) =
         sigs.filter fun sig => sig.name == n := by
     intro sigs
     induction sigs with
-    | nil => rfl
+    | nil => intro _; rfl
     | cons sig sigs ih =>
-      rw [List.flatMap_cons, List.filter_append, List.map_append, ih, List.filter_cons]
+      intro hsub
+      rw [List.flatMap_cons, List.filter_append, List.map_append, ih (fun g hg => hsub g (by simp [hg])), List.filter_cons]
       by_cases hname : sig.name = n
       · have h1 : (liveDeliveries s sig).filter (fun d => d.1 == h && d.2.name == n) = [(h, sig)] := by
           unfold liveDeliveries
           rw [List.filter_map]
           have : ((fun d : Nat × Sig => d.1 == h && d.2.name == n) ∘ fun x => (x, sig)) = fun x => x == h := by
             funext x; simp [hname]
-          rw [this, List.filter_beq, hname, hsub sig.type]; rfl
+          rw [this, List.filter_beq, hname, hsub sig (by simp) hname]; rfl
         simp [h1, hname]
       · have h1 : (liveDeliveries s sig).filter (fun d => d.1 == h && d.2.name == n) = [] := by
           unfold liveDeliveries
@@ -246,7 +250,58 @@ theorem C16_listener_receives_all (s : St) (op : Op) (n h : Nat)
   · rw [h'] at ho; cases ho
   · rw [h'] at ho; injection ho with ho; subst ho; rw [hem]; rfl
   · rw [h'] at ho; injection ho with ho; subst ho; rw [hop]; rfl
-  · rw [h'] at ho; injection ho with ho; subst ho; exact key _
+  · rw [h'] at ho; injection ho with ho; subst ho; exact key _ hsub
+
+/-- the signals handler `h` was called with for the observable `n` over a history, in order -/
+def deliveriesTo (h n : Nat) : List Out → List Sig
+  | [] => []
+  | .ok ds :: os => (ds.filter fun d => d.1 == h && d.2.name == n).map (·.2) ++ deliveriesTo h n os
+  | .err _ :: os => deliveriesTo h n os
+
+/-- at every step of the history, handler `h` is alive and subscribed exactly once to the type of every signal that
+    step emits for `n` (decidable; e.g. subscribed once with `All()` and never unsubscribed, cleared or dropped) -/
+def subscribedThroughout (n h : Nat) : St → List Op → Bool
+  | _, [] => true
+  | s, op :: ops =>
+    ((emitted s op).all fun sig => sig.name != n || ((s.reg.subs n sig.type).filter s.alive).count h == 1) &&
+      subscribedThroughout n h (step s op).1 ops
+
+/-- **A listener's own deliveries reconstruct the list, ∀ histories** (the replica theorem composed with the
+    deliveries): a handler that stays subscribed — once — to every signal type the ObservableList `n` emits during a
+    history, and applies the signals *it is called with* to its copy, has after the history exactly the real list;
+    whatever else happens in between (other handlers subscribing, unsubscribing, dying, rejected calls, operations on
+    other observables). -/
+theorem C16_listener_replica_all_histories (s : St) (ops : List Op) (n h : Nat) (hobs : ∀ v, .assign n v ∉ ops)
+    (hsub : subscribedThroughout n h s ops = true) :
+    replay ((s.lists n).getD []) (deliveriesTo h n (run s ops).2) = some (((run s ops).1.lists n).getD []) := by
+  have key : ∀ (ops : List Op) (s : St), subscribedThroughout n h s ops = true →
+      deliveriesTo h n (run s ops).2 = (allEmitted s ops).filter fun sig => sig.name == n := by
+    intro ops
+    induction ops with
+    | nil => intro s _; rfl
+    | cons op ops ih =>
+      intro s hs
+      simp only [subscribedThroughout, Bool.and_eq_true, List.all_eq_true, Bool.or_eq_true, bne_iff_ne, ne_eq,
+        beq_iff_eq] at hs
+      have hs1 : ∀ sig ∈ emitted s op, sig.name = n → ((s.reg.subs n sig.type).filter s.alive).count h = 1 := by
+        intro sig hm hn
+        rcases hs.1 sig hm with h' | h'
+        · exact absurd hn h'
+        · exact h'
+      rw [run_cons, allEmitted, List.filter_append, ← ih _ hs.2]
+      cases ho : (step s op).2 with
+      | ok ds =>
+        simp only [deliveriesTo]
+        rw [C16_listener_receives_all s op n h hs1 ds ho]
+      | err e =>
+        simp only [deliveriesTo]
+        rcases step_kind s op with ⟨e', _, hem⟩ | ⟨r, h', _, _⟩ | ⟨x, _, h'⟩ | ⟨s1, p, h', _, _⟩
+        · rw [hem]; rfl
+        · rw [h'] at ho; cases ho
+        · rw [h'] at ho; cases ho
+        · rw [h'] at ho; cases ho
+  rw [key ops s hsub]
+  exact C16_replica_all_histories s ops n hobs
 
 /-- **Independence from the iteration order of the signal-type sets** (needs the repaired loop variable):
     two classes that differ only in the order in which Python iterates each `signal_types` set produce the
@@ -277,6 +332,28 @@ example : (run (init exDecls) [.observe .all (.one .append) 7, .lassign 1 [], .o
     [.err .value, .ok [], .ok [], .ok [],
      .ok [(7, ⟨1, .append, .none, .int 5, .int 0⟩), (7, ⟨1, .append, .none, .int 5, .int 0⟩)], .ok [], .ok []] := by
   decide
+
+/-- non-vacuity of `C16_listener_replica_all_histories` (and of the hypothesis of `C16_listener_receives_all` for a
+    class that has a plain Observable too): handler 7 subscribes with `All()` to every type of the list 1; then the
+    list is assigned, appended to, inserted into, reversed, popped with an index out of range (rejected), extended and
+    shortened, while handler 3 subscribes, is garbage-collected (`drop`) and the Observable 0 is assigned: 7 stays
+    subscribed throughout, and replaying what *it* was called with gives the list -/
+def exListenerOps : List Op :=
+  [.lassign 1 [1, 2], .lappend 1 5, .observe .all .all 3, .linsert 1 0 4, .assign 0 9, .drop 3, .lreverse 1,
+   .lpop 1 9, .lextend 1 [8, 9], .ldel 1 0]
+def exListenerSt : St := (run (init exDecls) [.observe (.one 1) .all 7]).1
+
+example : subscribedThroughout 1 7 exListenerSt exListenerOps = true := by decide
+example : replay [] (deliveriesTo 7 1 (run exListenerSt exListenerOps).2) = some [2, 1, 4, 8, 9] ∧
+    (run exListenerSt exListenerOps).1.lists 1 = some [2, 1, 4, 8, 9] ∧
+    (run exListenerSt exListenerOps).2[7]? = some (.err .index) := by decide
+/-- the listener checks `old` for every signal type, `change` included: a `change` whose `old` is not its copy does
+    not fit (so the replica theorems also say that the `old` payload of every whole-list assignment is the list as it
+    was) -/
+example : applySig [1, 2] ⟨1, .change, .list [1], .list [7], .none⟩ = none ∧
+    applySig [1, 2] ⟨1, .change, .list [1, 2], .list [7], .none⟩ = some [7] := by decide
+/-- … and a handler that was garbage-collected in between is not subscribed throughout -/
+example : subscribedThroughout 1 3 exListenerSt exListenerOps = false := by decide
 
 /-! ### extended slices: `lst[a:b:c] = vs`, `del lst[a:b:c]` with open bounds, steps other than 1, negative steps -/
 
